@@ -145,7 +145,8 @@ def worker():
             # the other doors a timestamp enters a record through: the raw input form given to the constructor, as element of a
             # datetime[] field, assigned afterwards, and assigned through a grouped record
             try:
-                doors = {"ctor-raw": desc(ts=value, _generated=gen).ts, "list": ldesc(tsl=[value, value], _generated=gen).tsl[1]}
+                doors = {"ctor-raw": desc(ts=value, _generated=gen).ts, "list": ldesc(tsl=[value, value], _generated=gen).tsl[1],
+                         "generated-ctor": desc(ts=None, _generated=value)._generated}
                 r2 = desc(_generated=gen)
                 r2.ts = value
                 doors["assign"] = r2.ts
